@@ -201,6 +201,10 @@ pub enum Op {
     /// has done its work already and only its outcome is still to be
     /// recorded in the queue.
     Overlap { late: bool, inner: Box<Op> },
+    /// A publisher that is not one of the CAs (created on first use) publishes,
+    /// replaces (content != 0) or withdraws (content == 0) the file in `slot`:
+    /// a publication made by a request thread, as remote publishers do.
+    ForeignPublish { slot: u8, content: u8 },
 }
 
 impl Op {
@@ -212,6 +216,7 @@ impl Op {
     pub fn kind(&self) -> &'static str {
         match self {
             Op::Overlap { .. } => "Overlap",
+            Op::ForeignPublish { .. } => "ForeignPublish",
             Op::Roa { .. } => "Roa",
             Op::Aspa { .. } => "Aspa",
             Op::AspaRemove { .. } => "AspaRemove",
@@ -1066,6 +1071,40 @@ impl Sim {
                 let n = *n as usize;
                 self.pump_n(n)?;
                 Ok(())
+            }
+            Op::ForeignPublish { slot, content } => {
+                use rpki::ca::publication::{Base64, Publish, PublishDelta, Update, Withdraw};
+                const PUBX: &str = "pubx";
+                let base = format!("rsync://krill.example.org/repo/{PUBX}/");
+                let handle = rpki::ca::idexchange::PublisherHandle::from_str(PUBX).unwrap();
+                let w = self.w.as_ref().unwrap();
+                if !w.publishers().iter().any(|p| p == PUBX) {
+                    let id = w.rt.signer().create_self_signed_id_cert().map_err(|e| Fail::Harness(e.to_string()))?;
+                    let req = rpki::ca::idexchange::PublisherRequest::new(api::ca::IdCertInfo::from(&id).base64.clone(), handle.clone(), None);
+                    let r = crate::world::guarded(|| w.repo().create_publisher(req, &w.actor))?;
+                    r.map_err(|e| Fail::Harness(format!("extra publisher: {e}")))?;
+                }
+                self.foreign_publisher_base = Some(base.clone());
+                let uri = rpki::uri::Rsync::from_str(&format!("{base}f{}.bin", slot % 6)).unwrap();
+                let w = self.w.as_ref().unwrap();
+                let cur = crate::world::guarded(|| w.repo().get_publisher_details(handle.clone()))?.map_err(|e| Fail::Harness(format!("extra publisher details: {e}")))?;
+                let existing = cur.current_files.iter().find(|f| f.uri == uri).map(|f| f.base64.to_hash());
+                let bytes = bytes::Bytes::from(vec![*content; 1 + (*content as usize % 40)]);
+                let mut delta = PublishDelta::empty();
+                match (existing, *content) {
+                    (None, 0) => return Ok(()),
+                    (None, _) => delta.add_publish(Publish::new(None, uri, Base64::from_content(&bytes))),
+                    (Some(h), 0) => delta.add_withdraw(Withdraw::new(None, uri, h)),
+                    (Some(h), _) => {
+                        if Base64::from_content(&bytes).to_hash() == h {
+                            return Ok(());
+                        }
+                        delta.add_update(Update::new(None, uri, Base64::from_content(&bytes), h))
+                    }
+                }
+                self.flags.hit("foreign_publication");
+                let r = crate::world::guarded(|| w.repo().publish(&handle, delta, &w.rt))?;
+                r.map_err(|e| e.to_string())
             }
             Op::Overlap { late, inner } => {
                 let nested = matches!(**inner, Op::Overlap { .. } | Op::Pump { .. } | Op::Quiesce | Op::Check | Op::Restart | Op::Advance { .. } | Op::Snapshot | Op::HoldSigner { .. } | Op::HoldParentSyncs { .. });
